@@ -286,7 +286,10 @@ def worker_main(argv):
                       print_blob=False, phases=phases,
                       suppress_health_check=list(HealthCheck))
 
-        @hypothesis.seed(seed * 1000 + shard)
+        import zlib
+        pseed = seed * 1000 + shard + (zlib.crc32(pname.encode()) % 9973) * 1000003
+
+        @hypothesis.seed(pseed)
         @st
         @given(part.strategy())
         def test(case):
